@@ -39,6 +39,8 @@ def run(ctx):
     rng.shuffle(combos)
     if ctx.quick:
         combos = combos[:150]
+    else:
+        combos = combos * 4            # the full product four times over, fresh repertoires each time
     plan = []
     for eng, cont, ot, mode, two in combos:
         if two and eng not in ('symdel', 'nearest_neighbor'):
